@@ -142,12 +142,44 @@ func (m *cfgModel) emitSites(fns map[*types.Func]bool) []emitSite {
 					}
 					prefixes = append(prefixes, format[:i])
 				}
+				// a verb filled from a local that only ever holds string constants spells a keyword: its words are
+				// the alternatives ("secret" / "secret_ref" chosen into a variable before one Fprintf)
+				keywordAlts := func(a ast.Expr) []string {
+					id, ok := ast.Unparen(a).(*ast.Ident)
+					if !ok {
+						return nil
+					}
+					v, ok := m.info.Uses[id].(*types.Var)
+					if !ok || v.IsField() || v.Parent() == m.pkg.Types.Scope() {
+						return nil
+					}
+					rhs := rhsOf(m.info, fd, v)
+					if len(rhs) == 0 {
+						return nil
+					}
+					var alts []string
+					for _, r := range rhs {
+						sv, ok := m.stringConst(r)
+						if !ok {
+							return nil
+						}
+						alts = append(alts, literalWords(sv)...)
+					}
+					return alts
+				}
+				var carried []string
 				for k, a := range ce.Args[2:] {
 					if k >= len(prefixes) {
 						break
 					}
+					if alts := keywordAlts(a); alts != nil {
+						carried = append(carried, alts...)
+						continue
+					}
 					if key, ok := m.resolveField(m.unwrapSpelling(a), fd, 0); ok {
-						out = append(out, emitSite{key, literalWords(prefixes[k]), a.Pos(), f.Name(), ce})
+						words := literalWords(prefixes[k])
+						words = append(words, carried...)
+						out = append(out, emitSite{key, words, a.Pos(), f.Name(), ce})
 					}
 				}
 				return true
